@@ -728,10 +728,17 @@ impl Stringify for Value {
                     stringifier: &mut Stringifier<'s, W>,
                     start_location: &Range<Position>,
                     end_location: &Range<Position>,
+                    binding_follows: bool,
                 ) -> FmtResult {
                     match expr {
                         Expression::LitStr { value, location } => {
-                            stringifier.write_token(&escape_html_body(value), None, location)?;
+                            let mut s = escape_html_body(value).into_owned();
+                            if binding_follows && s.ends_with('{') {
+                                // must not join the `{{` of the binding that follows
+                                s.pop();
+                                s.push_str("&#123;");
+                            }
+                            stringifier.write_token(&s, None, location)?;
                             return Ok(());
                         }
                         Expression::ToStringWithoutUndefined { value, location } => {
@@ -765,8 +772,22 @@ impl Stringify for Value {
                             }
                             let split = is_text_concat(expr);
                             if split {
-                                split_expression(&left, stringifier, start_location, location)?;
-                                split_expression(&right, stringifier, location, end_location)?;
+                                let right_is_binding =
+                                    matches!(&**right, Expression::ToStringWithoutUndefined { .. });
+                                split_expression(
+                                    &left,
+                                    stringifier,
+                                    start_location,
+                                    location,
+                                    right_is_binding,
+                                )?;
+                                split_expression(
+                                    &right,
+                                    stringifier,
+                                    location,
+                                    end_location,
+                                    binding_follows,
+                                )?;
                                 return Ok(());
                             }
                         }
@@ -782,6 +803,7 @@ impl Stringify for Value {
                     stringifier,
                     &double_brace_location.0,
                     &double_brace_location.1,
+                    false,
                 )?;
             }
         }
